@@ -90,6 +90,8 @@ M2=[ # second batch (with an optional anchor: the edit is made at the first occu
  ("C11","cache/flashback.go","	if err == nil {\n		return true, nil\n	}","	if err == nil {\n		return false, nil\n	}","a remembered hash is reported as new","func (f *Flashback) HasHash("),
  ("C11","gossip/gossip.go","createGossiperMessageToSign(g.signer.Address(), vrx.Hash)","createGossiperMessageToSign(g.signer.Address(), vrx.Transaction.Hash)","origin signs its gossiper entry over the transaction hash"),
  ("C12","gossip/gossip.go","			set := map[string]*protobufcompiled.Gossiper{g.signer.Address(): gossiper}\n			g.gossipVertex(ctx, vg, set)","			set := map[string]*protobufcompiled.Gossiper{}\n			g.gossipVertex(ctx, vg, set)","origin forwards with an empty verified set"),
+ ("C14","accountant/accountant.go","			case *Vertex:\n				cVrx <- vrx\n			default:\n				break leavesLoop\n			}\n			vertices, _, err := ab.dag.AncestorsWalker(l)","			case *Vertex:\n				_ = vrx\n			default:\n				break leavesLoop\n			}\n			vertices, _, err := ab.dag.AncestorsWalker(l)","StreamDAG does not send the tips themselves"),
+ ("C14","accountant/accountant.go","		}\n		close(cVrx)\n	}(cVrx)","		}\n	}(cVrx)","StreamDAG never closes the stream"),
 ]
 N=[ # neutral edits: every check must stay at exit 0
  ("accountant/accountant.go","	validatedLeafs := make([]*Vertex, 0, 2)\n","	validatedLeafs := make([]*Vertex, 0, 2)\n	ab.log.Debug(\"validating the parents of an incoming leaf\")\n","add a log line"),
